@@ -116,6 +116,9 @@ def run(ctx, F):
             if rest[:1] in (" ",):
                 ctx.ok("F6-hex-escape-delimited", key, {"delimiter": "space in template"})
                 continue
+            if lookahead_idiom(f, n):
+                ctx.ok("F6-hex-escape-delimited", key, {"delimiter": "space written when the next character (peeked) is a hex digit or a space"})
+                continue
             idiom = carry_space_idiom(f, tree)
             if idiom is True:
                 ctx.ok("F6-hex-escape-delimited", key, {"delimiter": "carry-space flag tested before the next character"})
@@ -403,6 +406,33 @@ def backslash_branches(ctx, tree):
             else:
                 ctx.ok("F6-backslash-escaped", key, f"{len(ps)} path(s), all escaped")
     ctx.floor("per-character backslash branches in the string modules", n, 1)
+
+
+def lookahead_idiom(f, fmt_node):
+    """the statement right after the escape emission is `if <iter>.peek().is_some_and(|n| n.is_ascii_hexdigit() || *n == ' ' ..) { write ' ' }`:
+    the escape is delimited exactly when the next character would otherwise be read into it"""
+    for blk in A.walk(f["body"]):
+        if blk.get("e") != "block":
+            continue
+        st = blk["stmts"]
+        for i, s_ in enumerate(st[:-1]):
+            x = s_.get("x")
+            if x is None or not any(m is fmt_node for m in A.walk(x)):
+                continue
+            nx = A.strip(st[i + 1].get("x") or {})
+            if nx.get("e") != "if" or nx.get("else") is not None:
+                continue
+            cond = A.show(nx["cond"]).replace(" ", "")
+            peeks = ".peek()" in cond
+            hexd = "is_ascii_hexdigit()" in cond
+            # the whole condition, not a truncated rendering: look at the nodes
+            has_space = any(m.get("e") == "lit" and m.get("v") == " " for m in A.walk(nx["cond"]))
+            hexd = hexd or any(m.get("e") == "mcall" and m["m"] == "is_ascii_hexdigit" for m in A.walk(nx["cond"]))
+            peeks = peeks or any(m.get("e") == "mcall" and m["m"] == "peek" for m in A.walk(nx["cond"]))
+            writes = any(m.get("e") == "mcall" and m["m"] in ("write_char", "push", "push_str", "write_str") and m["args"] and A.lit_str(A.strip(m["args"][0])) == " " for m in A.walk(nx["then"]))
+            if peeks and hexd and has_space and writes:
+                return True
+    return False
 
 
 def carry_space_idiom(f, tree):
